@@ -48,10 +48,30 @@ Definition snap := (Z * Z * Z * Z * Z * list Z * list Z)%type.
 (* [base], [pre]: the directory already holds the rolled files <head>.<base>, <head>.<base+1>, ...
    before the WAL is opened for the first time ([pre] = records of each file with their
    EndHeight tag, oldest file first; written by a real WAL and renamed) *)
+(* ---- node lives (harness c15_node): a real consensus node driven through State.OnStart.
+   A record as a sequential reader returned it at a checkpoint: kind (0 EndHeight, 1 RoundState,
+   2 timeout, 3 proposal, 4 block part, 5 prevote, 6 precommit, 7 other), height, the checksum
+   in front of it, its length. *)
+Inductive nrec := NR (kind : N) (h : Z) (crc : N) (len : Z).
+(* how an incarnation was started.  NRestart: what the crash left behind the last record of the
+   head (tk: 0 nothing, 1 the first n bytes of a frame with a payload of plen bytes, 2 that whole
+   frame, 3 that whole frame with the byte at offset off flipped), doWALCatchup *)
+Inductive nstart := NFirst | NRestart (cu : bool) (tk : N) (n plen off : Z).
+(* sres: cs.Start returned nil (0), an error (1), was killed inside the replay (2);
+   backup: <wal>.CORRUPTED was written; hgt: the node's height when Start returned;
+   ended: how the incarnation ended (description only);
+   checkpoint with the node down: committed = LastBlockHeight of the state store, the records a
+   fresh sequential reader returns from the first file and how it ends (0 EOF, 1 corruption,
+   2 other), SearchForEndHeight(h) for h = 1..committed (1 found, 0 not found, 2 error) *)
+Inductive nstage :=
+| NStage (start : nstart) (sres : N) (backup : bool) (hgt : Z) (ended : N)
+         (committed : Z) (recs : list nrec) (term : N) (found : list N).
+
 Inductive case :=
 | CWal (hl tl : Z) (base : Z) (pre : list (list (pl * option Z)))
        (ops : list xop) (answers : list xans) (snaps : list snap)
-       (final_files : list pl) (final_head : pl).
+       (final_files : list pl) (final_head : pl)
+| CNode (stages : list nstage).
 
 (* ---------------------------------------------------------------- running the model *)
 Definition tag_tab := list (bytes * option Z).
@@ -408,6 +428,133 @@ Definition snap0 (base : Z) (pre : list (list bytes)) : snap :=
    map (fun rs => fold_right (fun d a => frame_size d + a) 0 rs) pre,
    map (fun k => base + Z.of_nat k) (seq 0 (List.length pre))).
 
+(* ---------------------------------------------------------------- node lives *)
+Definition nrec_eqb (a b : nrec) : bool :=
+  let '(NR k h c l) := a in let '(NR k' h' c' l') := b in
+  (k =? k')%N && (h =? h') && (c =? c')%N && (l =? l').
+Fixpoint nprefix (a b : list nrec) : bool :=
+  match a, b with
+  | [], _ => true
+  | x :: a', y :: b' => nrec_eqb x y && nprefix a' b'
+  | _ :: _, [] => false
+  end.
+Definition nmarkers (l : list nrec) : list Z :=
+  flat_map (fun r => let '(NR k h _ _) := r in if (k =? 0)%N && (0 <? h) then [h] else []) l.
+Fixpoint zsubseq (a b : list Z) : bool :=
+  match b with
+  | [] => match a with [] => true | _ => false end
+  | y :: b' => match a with
+               | [] => true
+               | x :: a' => if x =? y then zsubseq a' b' else zsubseq a b'
+               end
+  end.
+Definition zrange (n : Z) : list Z := map (fun k => Z.of_nat k + 1) (seq 0 (Z.to_nat n)).
+(* the node's own precommit for height h stands in front of #ENDHEIGHT h (1 <= h <= committed) *)
+Fixpoint precommit_before (committed : Z) (seen : list Z) (l : list nrec) : bool :=
+  match l with
+  | [] => true
+  | NR k h _ _ :: r =>
+    if (k =? 6)%N then precommit_before committed (h :: seen) r
+    else if (k =? 0)%N && (0 <? h) && (h <=? committed)
+         then existsb (Z.eqb h) seen && precommit_before committed seen r
+         else precommit_before committed seen r
+  end.
+
+(* a log with the framing of the one the checkpoint saw: record i is a payload of the recorded
+   length that starts with i (so the markers can be told apart); what the start-up does with it
+   depends on lengths, checksums and markers only *)
+Definition synth (i : nat) (l : Z) : bytes :=
+  let n := N.of_nat i in
+  firstn (Z.to_nat l) ([(n / 65536) mod 256; (n / 256) mod 256; n mod 256]%N
+                       ++ repeat 0%N (Z.to_nat l - 3)).
+Definition synth_log (recs : list nrec) : list (bytes * option Z) :=
+  map (fun ir : nat * nrec => let '(i, NR k h _ l) := ir in
+         (synth i l, if (k =? 0)%N then Some h else None))
+      (combine (seq 0 (List.length recs)) recs).
+Definition synth_tail (i : nat) (tk : N) (n plen off : Z) : bytes :=
+  let fr := frame crc32c_be (synth i plen) in
+  if (tk =? 1)%N then firstn (Z.to_nat n) fr
+  else if (tk =? 2)%N then fr
+  else if (tk =? 3)%N then xor_at fr (Z.to_nat off) 1%N
+  else [].
+(* the start-up of the model on that log: (status, repaired) *)
+Definition model_start (recs : list nrec) (tk : N) (n plen off : Z) (h : Z) (cu : bool) : N * bool :=
+  let lg := synth_log recs in
+  let hd := concat (map (fun x => frame crc32c_be (fst x)) lg)
+            ++ synth_tail (List.length recs) tk n plen off in
+  let s := set_disk (init 0 0) [] hd (len hd) [] in
+  let '(_, (st, rp, _)) :=
+    restart crc32c_be (fun _ => true) (lookup lg) true s 1073741824 h cu []
+            (repeat 255%N 20) in
+  (st, rp).
+
+(* Known finding 10 (F53): catchupReplay hands the records to the state machine while it is still
+   reading.  When the log in front of a partial record already holds the node's own precommit
+   for the height h being replayed, the replay commits h INSIDE State.OnStart: finalizeCommit
+   writes #ENDHEIGHT h (WriteSync) behind the partial record, the replay then runs into the
+   partial record, and repairWalFile cuts the head there -- the acknowledged marker is gone.
+   The class, from the recorded history and the model: a restart whose crash left a partial
+   (or damaged) record, at which the model's start-up repairs, the backup file WAS written (the
+   repair ran: an implementation that does not repair is not in the class) or the incarnation
+   was killed inside State.OnStart (after the replay had written the marker, before it reached
+   the partial record), and the log of the previous checkpoint holds a precommit for height
+   committed+1.  Only the loss of the marker
+   of exactly that height is in the class; every other missing marker or record is a violation. *)
+Definition has_precommit (h : Z) (l : list nrec) : bool :=
+  existsb (fun r => let '(NR k h' _ _) := r in (k =? 6)%N && (h' =? h)) l.
+Definition viol_k10 (tainted : bool) (b b_without_lost : bool) (clause : N) : verdict :=
+  if b then V_ok else if tainted then V_known 9
+  else if b_without_lost then V_known 10 else V_violation clause.
+
+(* n_pending: the log ends in a partial record that is still there for a reason the
+   specification allows -- the incarnation that should have repaired it was killed inside
+   State.OnStart before it got there (what it wrote behind the partial record is unreadable
+   and was never synced) *)
+Record nmon := { n_prev : option (list nrec * N * Z); n_taint : bool; n_lost : list Z;
+                 n_pending : bool; n_verd : list verdict }.
+
+Definition nstep (m : nmon) (sg : nstage) : nmon :=
+  let '(NStage start sres backup hgt _ committed recs term found) := sg in
+  let pc := match n_prev m with Some (_, _, c) => c | None => 0 end in
+  let '(taint, lost, pending, cmp) :=
+    match start, n_prev m with
+    | NRestart cu tk n plen off, Some (pr, pt, pc) =>
+      if (pt =? 0)%N || n_pending m then
+        let corrupt := (tk =? 1)%N || (tk =? 3)%N || n_pending m in
+        let '(st, rp) :=
+          if n_pending m then model_start pr 1 1 20 0 (pc + 1) cu   (* garbage behind the records *)
+          else model_start pr tk n plen off (pc + 1) cu in
+        (* class 9: the crash left a partial (or damaged) record and the specified start-up does
+           not repair; what the implementation did plays no part *)
+        (n_taint m || (corrupt && negb rp),
+         (* class 10: the replay commits height pc+1 in front of the partial record, then repairs *)
+         (if corrupt && rp && (backup || (sres =? 2)%N) && has_precommit (pc + 1) pr
+          then [pc + 1] else []) ++ n_lost m,
+         (* killed inside OnStart before the repair that was due *)
+         corrupt && rp && negb backup && (sres =? 2)%N,
+         if n_taint m || (sres =? 2)%N then []
+         else [ mism (Bool.eqb backup rp) 20;
+                mism (Bool.eqb (st =? 2)%N (sres =? 1)%N) 20 ])
+      else (n_taint m, n_lost m, false, [])  (* an older partial record is still in the log *)
+    | _, _ => (n_taint m, n_lost m, false, [])
+    end in
+  let is_lost h := existsb (Z.eqb h) lost in
+  let found_ok (skip_lost : bool) :=
+    forallb (fun hf : Z * N => (skip_lost && is_lost (fst hf)) || (snd hf =? 1)%N)
+            (combine (zrange committed) found)
+    && (Z.of_nat (List.length found) =? Z.max 0 committed) in
+  let want (skip_lost : bool) :=
+    filter (fun h => negb (skip_lost && is_lost h)) (zrange committed) in
+  let v3 := viol_k10 taint (found_ok false) (found_ok true) 3 in
+  let v1a := viol_k10 taint (zsubseq (want false) (nmarkers recs))
+                            (zsubseq (want true) (nmarkers recs)) 1 in
+  let v1b := viol_k taint (match n_prev m with Some (pr, _, _) => nprefix pr recs | None => true end) 1 in
+  let v1c := viol_k taint (precommit_before committed [] recs) 1 in
+  let v2 := viol (increasing (nmarkers recs)) 2 in
+  let vh := mism (negb (sres =? 0)%N || (pc + 1 <=? hgt)) 21 in
+  {| n_prev := Some (recs, term, committed); n_taint := taint; n_lost := lost; n_pending := pending;
+     n_verd := n_verd m ++ [v1b; v1a; v1c; v2; v3] ++ cmp ++ [vh] |}.
+
 Definition check (c : case) : verdict :=
   match c with
   | CWal hl tl base pre ops answers snaps ffiles fhead =>
@@ -427,4 +574,6 @@ Definition check (c : case) : verdict :=
               cmp_answers mans answers ++ cmp_snaps msnaps snaps ++
               [ mism (list_eqb bytes_eqb (files s) (map unpl ffiles)) 17;
                 mism (bytes_eqb (head s ++ buf s) (unpl fhead)) 18 ])
+  | CNode stages =>
+    first_of (n_verd (fold_left nstep stages {| n_prev := None; n_taint := false; n_lost := []; n_pending := false; n_verd := [] |}))
   end.
